@@ -6,6 +6,7 @@ import (
 	"time"
 
 	bpmn "github.com/olive-io/bpmn/v2"
+	"github.com/olive-io/bpmn/v2/pkg/data"
 )
 
 func init() { commands["c01"] = runC01 }
@@ -142,6 +143,59 @@ func runC01(env *Env) {
 			if len(rep.Samples) < 4 && len(o.steps) > 4 {
 				rep.Sample(fmt.Sprintf("%s -> first pending %v, steps %s, completed %v", cs, o.first, o.CoqScript(), o.completed))
 			}
+		}
+	}
+	// a variable written by a token in a parallel branch steers a gateway another token reaches later (that token has
+	// already evaluated a condition before): conditions are evaluated on the values at the time the token arrives
+	for _, late := range []bool{true, false} {
+		prog := &Blk{Kind: "par", Kids: []*Blk{
+			{Kind: "seq", Kids: []*Blk{{Kind: "if", ID: 0, Kids: []*Blk{{Kind: "task", ID: 1}, {Kind: "task", ID: 2}}}, {Kind: "if", ID: 1, Kids: []*Blk{{Kind: "task", ID: 3}, {Kind: "task", ID: 4}}}}},
+			{Kind: "task", ID: 5}}}
+		env0 := [4]bool{true, !late, false, false}
+		cs := fmt.Sprintf("program %s, variables %v, T5 answered first writing v1=%v, then T1", prog, env0, late)
+		env.Current(cs)
+		step := 0
+		o := RunBlk(prog, env0, func(n int) int {
+			step++
+			if step == 1 {
+				return n - 1
+			}
+			return 0
+		},
+			func(task, nth int) [4]int {
+				if task == 5 {
+					return [4]int{-1, b2i(late), -1, -1}
+				}
+				return [4]int{-1, -1, -1, -1}
+			}, 20)
+		rep.Evaluations++
+		rep.Nontrivial++
+		rep.Count("cross_branch_write")
+		if o.problem != "" {
+			rep.Violate("C01-token-game", cs, o.problem+"; log: "+logString(o.log))
+		} else {
+			items = append(items, o.CoqCase(prog, env0, "[]"))
+		}
+	}
+	// the decision of an exclusive split is final: the variable turns false right after the gateway has read it once
+	// (as the answer of a task in a parallel branch may do) — the token still leaves on the chosen flow, T1 is requested
+	{
+		prog := &Blk{Kind: "seq", Kids: []*Blk{{Kind: "if", ID: 0, Kids: []*Blk{{Kind: "task", ID: 1}, {Kind: "task", ID: 2}}}, {Kind: "task", ID: 3}}}
+		env0 := [4]bool{true, false, false, false}
+		cs := fmt.Sprintf("program %s, variables %v, v0 turns false right after the split has read it", prog, env0)
+		env.Current(cs)
+		base := data.NewFlowDataLocator()
+		for i, v := range env0 {
+			base.SetVariable(fmt.Sprintf("v%d", i), v)
+		}
+		fl := &flipLocator{IFlowDataLocator: base, after: 1, key: "v0"}
+		o := RunBlk(prog, env0, func(n int) int { return 0 }, func(task, nth int) [4]int { return [4]int{-1, -1, -1, -1} }, 20, bpmn.WithLocator(fl))
+		rep.Evaluations++
+		rep.Nontrivial++
+		rep.Count("decision_final")
+		rep.Notes = append(rep.Notes, fmt.Sprintf("decision-final scenario: the variables were read %d times", fl.reads))
+		if o.problem != "" {
+			rep.Violate("C01-token-game", cs, o.problem+"; log: "+logString(o.log))
 		}
 	}
 	// a task with 1..4 conditional outgoing flows (each to a task and an end event of its own), every truth
